@@ -17,12 +17,24 @@ type Exec struct {
 	O    Oracle
 	Acts []Action
 	Recs int
+	// Twins: further independent worlds executing the same history (C20)
+	Twins []*World
 }
 
 func NewExec(prop string, cfg Config) *Exec {
 	w := NewWorld(cfg)
 	m := NewModel()
-	return &Exec{Prop: prop, Cfg: cfg, W: w, M: m, O: NewOracle(prop, w, m)}
+	ex := &Exec{Prop: prop, Cfg: cfg, W: w, M: m, O: NewOracle(prop, w, m)}
+	if prop == "C20" {
+		n := 1
+		if os.Getenv("VERIF_TIER") == "thorough" {
+			n = 2
+		}
+		for i := 0; i < n; i++ {
+			ex.Twins = append(ex.Twins, NewWorld(cfg))
+		}
+	}
+	return ex
 }
 
 // Do executes one action; returns the step record and the violations the oracle raised.
@@ -30,6 +42,13 @@ func (e *Exec) Do(a Action) (*StepRec, []Violation) {
 	rec := e.W.Step(a)
 	e.Acts = append(e.Acts, a)
 	var vs []Violation
+	for i, tw := range e.Twins {
+		tr := tw.Step(a)
+		if tr.OK != rec.OK || tr.Post.Digest() != rec.Post.Digest() {
+			vs = append(vs, Violation{Prop: e.Prop, Sig: "c20:diverge:" + a.Kind,
+				Msg: fmt.Sprintf("instance %d diverges after %s: ok=%v/%v digest %s vs %s (%s)", i+1, a.Kind, rec.OK, tr.OK, short(rec.Post.Digest()), short(tr.Post.Digest()), diffSnap(rec.Post, tr.Post))})
+		}
+	}
 	feed := func(r *StepRec) {
 		vs = append(vs, harnessSanity(e.Prop, r)...)
 		vs = append(vs, e.O.Step(r)...)
@@ -44,6 +63,24 @@ func (e *Exec) Do(a Action) (*StepRec, []Violation) {
 		feed(rec)
 	}
 	return rec, vs
+}
+
+// diffSnap names the first difference between two snapshots
+func diffSnap(a, b *Snapshot) string {
+	for _, k := range sortedKeys(mergeKeys(a.Raw, b.Raw)) {
+		if string(a.Raw[k]) != string(b.Raw[k]) {
+			return fmt.Sprintf("store key %x differs", k)
+		}
+	}
+	for _, k := range sortedAddrs(a.Bal, b.Bal) {
+		if a.Bal[k] != b.Bal[k] {
+			return fmt.Sprintf("balance of %s: %d vs %d", short(k), a.Bal[k], b.Bal[k])
+		}
+	}
+	if a.Supply != b.Supply {
+		return "supply differs"
+	}
+	return "height/time differ"
 }
 
 // harnessSanity: conditions that indicate a broken harness rather than a property violation
@@ -93,6 +130,12 @@ func NewOracle(prop string, w *World, m *Model) Oracle {
 		return newC15(w, m)
 	case "C16":
 		return newC16(w, m)
+	case "C18":
+		return newC18(w, m)
+	case "C20":
+		return newC20(w, m)
+	case "C17", "C19":
+		return &passive{oracleBase: newBase(prop, w)}
 	}
 	panic("harness: no oracle for " + prop)
 }
@@ -119,6 +162,7 @@ func envOr(k, d string) string {
 // historyProperty is the rapid property for all history-shaped checks.
 func (e *runEnv) historyProperty(t *rapid.T) {
 	f := FocusFor(e.prop, e.tier)
+	f.DrawCaseFlags(t)
 	cfg := GenConfig(t, f)
 	ex := NewExec(e.prop, cfg)
 	g := NewGenState(cfg, f, ex.W.Snapshot())
@@ -152,6 +196,22 @@ func (e *runEnv) historyProperty(t *rapid.T) {
 			break
 		}
 	}
+	extra := ""
+	if viol == nil && knownHit == nil {
+		if tr := trailers[e.prop]; tr != nil {
+			var vs []Violation
+			vs, extra = tr(t, ex, g)
+			for _, v := range vs {
+				v := v
+				if kf := e.known.Match(v); kf != nil {
+					knownHit = kf
+					break
+				}
+				viol = &v
+				break
+			}
+		}
+	}
 	if viol == nil && knownHit == nil {
 		for _, v := range ex.O.End() {
 			v := v
@@ -166,7 +226,7 @@ func (e *runEnv) historyProperty(t *rapid.T) {
 	if viol != nil {
 		e.failed = true
 		path := filepath.Join(e.replayDir, fmt.Sprintf("%s-seed%d.json", e.prop, e.seed))
-		WriteReplay(path, Replay{Prop: e.prop, Seed: e.seed, Config: cfg, Focus: f, Actions: ex.Acts, Violation: viol})
+		WriteReplay(path, Replay{Prop: e.prop, Seed: e.seed, Config: cfg, Focus: f, Actions: ex.Acts, Violation: viol, Extra: extra})
 		e.stats.ReplayPath = path
 		e.stats.Violations = []Violation{*viol}
 		t.Fatalf("VIOLATION %s after %d actions", viol.String(), len(ex.Acts))
@@ -202,12 +262,33 @@ func (e *runEnv) historyProperty(t *rapid.T) {
 	}
 }
 
+// passive oracle: the property is decided by a trailer after the history
+type passive struct {
+	oracleBase
+	nt bool
+}
+
+func (p *passive) Step(r *StepRec) []Violation { return nil }
+func (p *passive) NonTrivial() bool            { return p.nt }
+
+// trailers run after the generated history (queries, export/import ...); they return the
+// violations and a serialised description of what they did, for the replay file.
+var trailers = map[string]func(t *rapid.T, ex *Exec, g *GenState) ([]Violation, string){}
+
+// replayTrailers re-run a saved trailer
+var replayTrailers = map[string]func(ex *Exec, extra string) []Violation{}
+
 // ReplayHistory re-executes a saved history without rapid; returns the first violation.
 func ReplayHistory(r Replay) *Violation {
 	ex := NewExec(r.Prop, r.Config)
 	for _, a := range r.Actions {
 		_, vs := ex.Do(a)
 		if len(vs) > 0 {
+			return &vs[0]
+		}
+	}
+	if tr := replayTrailers[r.Prop]; tr != nil {
+		if vs := tr(ex, r.Extra); len(vs) > 0 {
 			return &vs[0]
 		}
 	}
